@@ -244,8 +244,29 @@ func selftestConformance(args []string) error {
 			var e1, e2 error
 			var d1, d2 string
 			m := ""
-			op := rng.Intn(8)
+			op := rng.Intn(11)
 			switch op {
+			case 8:
+				// symbolic link with a relative or absolute target
+				m = rng.Pick(names)
+				t1, t2 := m, m
+				if rng.Chance(40) {
+					t1, t2 = path.Join("/r", m), filepath.Join(real, m)
+				}
+				e1 = simrt.Symlink(t1, sp)
+				e2 = os.Symlink(t2, rp)
+			case 9:
+				var i1, i2 fs.FileInfo
+				i1, e1 = simrt.Lstat(sp)
+				i2, e2 = os.Lstat(rp)
+				if e1 == nil && e2 == nil {
+					d1 = fmt.Sprintf("%v %v", i1.IsDir(), i1.Mode()&fs.ModeSymlink != 0)
+					d2 = fmt.Sprintf("%v %v", i2.IsDir(), i2.Mode()&fs.ModeSymlink != 0)
+				}
+			case 10:
+				d1, e1 = simrt.Readlink(sp)
+				d2, e2 = os.Readlink(rp)
+				d2 = strings.Replace(d2, real, "/r", 1)
 			case 0:
 				data := []byte(fmt.Sprintf("data-%d", rng.Intn(1000)))
 				e1 = simrt.WriteFile(sp, data, 0o644)
@@ -314,12 +335,15 @@ func selftestConformance(args []string) error {
 					if d.IsDir() {
 						k = "d"
 					}
+					if d.Type()&fs.ModeSymlink != 0 {
+						k = "l"
+					}
 					want = append(want, k+":/r/"+rel)
 					return nil
 				})
 				got := []string{}
 				for _, x := range imagePaths(w) {
-					if x != "d:/r" {
+					if strings.Contains(x, ":/r/") {
 						got = append(got, x)
 					}
 				}
@@ -348,6 +372,9 @@ func imagePaths(w *simrt.World) []string {
 		k := "f"
 		if f.Dir {
 			k = "d"
+		}
+		if f.Link != "" {
+			k = "l"
 		}
 		out = append(out, k+":"+f.Path)
 	}
